@@ -29,4 +29,13 @@ func genC38(o *Out) {
 	}
 	o.boolean("makeLocked", lockedWholeCall(f, f.Func("ProposalMaker", "Make")))
 	o.boolean("preferEmptyLocked", lockedWholeCall(f, f.Func("ProposalMaker", "PreferEmpty")))
+	// a proposal that could not be stored is not handed out
+	ret := false
+	if fd := f.Func("ProposalMaker", "makeProposal"); fd != nil {
+		src := normSpace(f.Src(fd.Body))
+		ret = strings.Contains(src, "if _, err := p.pool.SetProposal(signfact); err != nil { return sf, err } return signfact, nil")
+	} else {
+		o.errf("ProposalMaker.makeProposal not found")
+	}
+	o.boolean("makeReturnsSetProposalError", ret)
 }
